@@ -73,11 +73,9 @@ def run(ctx):
             nontrivial += 1 if K * L > 1 else 0
             rows = [t[3:] for t in tr]          # tokens after 'line n :'
             want = []
-            for a in range(L):
-                want.append(['a=', str(a)])
+            for a in range(L):              # data rows only: block a = rows a*K .. a*K+K-1 (block headers / blank lines are presentation)
                 for k in range(K):
                     want.append([str(k + a * K)] if assort else [str(k + q * K + a * K * K) for q in range(K)])
-                want.append([])
             if rows != want:
                 ctx.violation('writer', 'write_affinity_file does not emit entry (k,q) of layer a at row k, column q of block a',
                               {'case': line, 'impl_rows': rows, 'expected_rows': want})
